@@ -6,8 +6,10 @@ CONSTANTS
   MaxArgs = 4
   Flags0 <- MCFlags0
   Int0 <- MCInt0
+  TableSet <- TS12
+  Histories <- HistCanon
   Argvs <- ArgvsBounded
   Emit <- EmitJson
-INVARIANTS TypeOK ReadingIsFunction RankBounded ForeignBitsKept PrePassOnlyPre NoPrePassNoPre IntFromLine NonOptionsUntouchedInOrder ArgvCompacted CompactPrefix
-PROPERTIES Terminates BoolTouchesOnlyMask OtherPassUntouched
+INVARIANTS TypeOK ReadingIsFunction RankBounded ForeignBitsKept PrePassOnlyPre NoPrePassNoPre IntFromLine NonOptionsUntouchedInOrder ArgvCompacted CompactPrefix ArgvShrunk
+PROPERTIES Terminates BoolTouchesOnlyMask OtherPassUntouched ArgvOnlyShrinks
 CHECK_DEADLOCK FALSE
